@@ -198,7 +198,7 @@ def isSuffixAfterNul (suffix total : Bytes) : Bool :=
     (suffix.length == total.length ||
       total[total.length - suffix.length - 1]? == some 0)
 
-def P_C02 (_cfg : WireCfg) (total : Bytes) (o : WireObs) : Verdict :=
+def P_C02 (_cfg : WireCfg) (feedMode : Bool) (total : Bytes) (o : WireObs) : Verdict :=
   if o.panicked then some "panic" else
   if o.out != o.refOut then some "replies-depend-on-segmentation" else
   if o.status != o.refStatus then some "status-depends-on-segmentation" else
@@ -208,6 +208,12 @@ def P_C02 (_cfg : WireCfg) (total : Bytes) (o : WireObs) : Verdict :=
     else none
   | .err => none
   | .upgraded _ =>
+    -- `feed` mode: `rest` = bytes left unread in a per-step slice, which the documented loop loses;
+    -- `whole` mode: `rest` = what is still in the caller's reader (not lost, the caller owns it)
+    if feedMode && !o.rest.isEmpty then
+      if total.length ≤ 8192 then some "bytes-after-an-upgrade-left-in-the-callers-reader-are-lost"
+      else some "bytes-beyond-the-internal-buffer-left-in-the-callers-reader-after-an-upgrade-are-lost"
+    else
     let handed := o.seen ++ o.tail ++ o.rest
     if handed != o.refTail ++ o.refRest then some "upgraded-bytes-depend-on-segmentation"
     else if !isSuffixAfterNul handed total then some "upgraded-bytes-are-not-the-stream-after-the-request"
